@@ -299,6 +299,8 @@ def gen_zero_rtt(r, idx, prefix=None):
     cli["ops"].append({"op": "connect", "zero_rtt": True})
     # streams opened again after a rejection, while the early handles are still around
     late = (not cfg["early_accept"]) and r.random() < 0.6
+    if late:
+        cfg["stream_window"] = r.choice([300, 300, 1000])      # the new streams' writers block
     for _ in range(r.choice([1, 2, 3, 4])):
         bidi = r.random() < 0.6
         ops = [{"op": "open_bi" if bidi else "open_uni"}]
@@ -364,7 +366,7 @@ def gen_script(r, idx, prefix=None):
     fam = r.random()
     if fam < 0.05:
         return gen_close_race(r, idx, prefix)
-    if fam < 0.11:
+    if fam < 0.15:
         return gen_zero_rtt(r, idx, prefix)
     if fam < 0.20:
         return gen_limit_chain(r, idx, prefix)
